@@ -52,11 +52,30 @@ def gen_case(rng: Rng, max_routes: int = 8) -> dict:
         pre = []
     else:
         pre = routes
+    asked: List[str] = [o["dst"] for o in ops if o["op"] == "find"]
     for _ in range(rng.range(2, 6)):
         if routes and rng.chance(1, 2):
             ops.append({"op": "find", "dst": rng.choice(routes)["addr"]})
         else:
             ops.append({"op": "find", "dst": rng.choice(QUERIES)})
+        asked.append(ops[-1]["dst"])
+    # second phase (both surfaces): the table CHANGES between look-ups — a later route, a first or a replaced default route — and the
+    # destinations asked before are asked again: find_best_route must be a function of the table as it is now, not of its history
+    if rng.chance(2, 3):
+        for _ in range(rng.range(1, 4)):
+            k = rng.below(4)
+            if k == 0:
+                ops.append({"op": "default", "nh": rng.choice(HOPS)})
+            elif k == 1 and asked:
+                # a route made for a destination that was already looked up (more specific than anything in MASKS but /32)
+                ops.append({"op": "add", "route": {"addr": rng.choice(asked), "mask": rng.choice(["255.255.255.255", "255.255.255.252", "255.255.0.0"]),
+                                                   "nh": rng.choice(HOPS), "metric": rng.choice(METRICS)}})
+            else:
+                ops.append({"op": "add", "route": gen_route(rng)})
+            for q in rng.shuffle(list(dict.fromkeys(asked)))[:3]:
+                ops.append({"op": "find", "dst": q})
+            ops.append({"op": "find", "dst": rng.choice(QUERIES)})
+            asked.append(ops[-1]["dst"])
     return {"surface": surface, "routes": pre, "default": default if surface == "config" else None, "ops": ops}
 
 
@@ -84,6 +103,14 @@ def exhaustive_cases(max_len: int) -> List[dict]:
                     ops.append({"op": "default", "nh": default})
                 ops += [{"op": "find", "dst": q} for q in EX_QUERIES]
                 out.append({"surface": "api", "routes": [], "default": None, "ops": ops})
+            # the same tables built WITH look-ups in between: every query before the last route, again after it, again after the
+            # default route appears, again after the default route is replaced (history must not matter)
+            finds = [{"op": "find", "dst": q} for q in EX_QUERIES]
+            ops = [{"op": "add", "route": UNIVERSE[i]} for i in combo[:-1]] + finds
+            if combo:
+                ops += [{"op": "add", "route": UNIVERSE[combo[-1]]}] + finds
+            ops += [{"op": "default", "nh": "9.9.9.9"}] + finds + [{"op": "default", "nh": "9.9.9.8"}] + finds
+            out.append({"surface": "api", "routes": [], "default": None, "ops": ops})
     return out
 
 
